@@ -10,14 +10,26 @@ PROPERTY = 'C12'
 LEAN_PROPS = 'PlumpyModel.Props.C12'
 ASSUMPTIONS = [
     'validators are pure oracles (the harness uses "reject every value mentioning atom n")',
-    'value domain: int (including the falsy 0) and float atoms, plain nested dicts and immutable mappings (AttributesFrozendict); emitted values are not mutated by user code afterwards',
+    'value domain: int (including the falsy 0) and float atoms, plain nested dicts and immutable mappings (AttributesFrozendict: a Mapping '
+    'that is not a dict), nested in each other in every way; emitted values are not mutated by user code afterwards',
+    'an emitted immutable mapping is a VALUE: a leaf for the recursion of validate_dynamic_ports, no instance of dict, and nothing can be '
+    'stored below it (TypeError directly below, AttributeError deeper - like below an int); its keys do not name dict methods '
+    '(AttributesFrozendict answers attribute reads from its keys: with a callable under the key "setdefault" the storage loop of out() '
+    'would call it - not generated)',
     'out() is called from the step function of a process run with execute() on a stock asyncio loop, exceptions of out() are caught by '
     'the step; no control requests (those are C01-C06)',
     'one process per class: the output spec is class-level state that out() extends by dynamic creation; the harness builds a fresh '
     'class per case and reads the spec back through the public mapping API before every emission',
 ]
 TRUSTED = ['output-side model lean/PlumpyModel/Ports/Out.lean (hand-written, compared with real runs per emission: outcome / exception '
-           'class, dynamic flag, listener notification, outputs tree, port-name tree of the spec; then state, successful, result, future)']
+           'class, dynamic flag, listener notification, outputs tree with plain dicts {..} and immutable mappings <..> told apart by trying an '
+           'item assignment, port-name tree of the spec; then state, successful, result, future)',
+           'reference rule of the monitors (harness/ports_gen.py: ref_accepts_out, ref_dyn_ok, ref_insert, ref_conforms_ns), a transcription of '
+           'the property text, not a call into plumpy',
+           'implementation-only stream (a test, no model behind it): a spec whose PORT_NAMESPACE_TYPE is a stricter PortNamespace subclass '
+           '(port names and dynamic keys must be identifiers, dynamic int leaves non-negative), emissions through namespaces created on the '
+           'fly at depth 1..3; oracle strict_expect / strict_conforms written from that rule, evaluated on the port names of the spec as '
+           'read back through the mapping API before every emission']
 
 _LOOP = None
 
@@ -282,7 +294,14 @@ def bad_op(rng, top, sub, ops):
         return (q, ('D', pg.gen_good_items(rng, (p[1], p[4], p[2], p[6]), p[7], set())))
     if kind == 'below-value' and ops:
         q, v = rng.choice(ops)
-        return (q + '.x', ('A', 0, 1))
+        # below an emitted value, one to three segments deep, along its own keys where it has any (a mapping that was emitted
+        # plain can be extended, an immutable one - see '+frozen' - cannot, at whatever depth it sits) or at a new key
+        for _k in range(rng.randint(1, 3)):
+            keys = [k for k, _ in v[1]] if v[0] != 'A' else []
+            k = rng.choice(keys) if keys and rng.random() < 0.7 else 'x'
+            q += '.' + k
+            v = dict(v[1]).get(k, ('A', 0, 1)) if v[0] != 'A' else v
+        return (q, ('A', 0, 1))
     if kind == 'empty-seg':
         return (rng.choice(['', '.x', 'x.', 'x..y', 'a.', '.']), ('A', 0, 1))
     if kind == 'dict-at-leaf' and leaves:
@@ -309,6 +328,25 @@ def gen_cases(ctx):
     add('corpus', (True, False, None, None), [('x', ('L', True, 0, None, False, None))], [('x', ('A', 1, 1)), ('y', ('A', 0, 1)), ('y.z', ('A', 0, 1))])
     add('corpus', (True, False, None, None), [('x', ('L', True, 0, None, False, None))], [('x', ('A', 0, 1))], fin_ok=False, result=9)
     add('corpus', (True, False, None, None), [('x', ('L', True, 0, None, False, None))], [('x', ('A', 0, 1))])
+    # emitted immutable mappings (values, not places to store below): the false alarm of round 5 and its neighbours
+    add('corpus', (True, True, None, None), [], [('q', ('F', [])), ('q.x', ('A', 0, 1)), ('q.x.y', ('A', 0, 1)), ('q', ('D', [])), ('q.x.y', ('A', 0, 1))])
+    add('corpus', (True, True, None, None), [], [('q', ('D', [('a', ('F', [('b', ('D', []))]))])), ('q.a.z', ('A', 0, 1)), ('q.a.b.c', ('A', 0, 1)),
+                                                  ('q.z', ('A', 0, 1)), ('q.a', ('D', [])), ('q.a.b.c', ('A', 0, 1))])
+    add('corpus', (True, True, 0, None), [], [('q', ('F', [('a', ('A', 0, 1))])), ('q', ('D', [('a', ('F', []))])), ('q', ('D', [('a', ('A', 0, 1))]))])
+    fz_subs = [[('a', ('N', False, None, None, True, True, None, [('a', ('L', False, 0, None, False, None))])), ('b', ('L', False, None, None, False, None))],
+               [('a', ('N', True, 0, None, True, True, None, []))]]
+    fz_first = [('F', []), ('F', [('a', ('A', 0, 1))]), ('F', [('a', ('F', []))]), ('F', [('a', ('D', []))]), ('D', [('a', ('F', []))]),
+                ('D', [('a', ('F', [('b', ('D', []))]))]), ('D', [('a', ('D', [('b', ('F', []))]))])]
+    for top in ((True, True, None, None), (True, True, 0, None), (True, False, None, None)):
+        for sub in fz_subs:
+            for base in ('q', 'a', 'a.q', 'b'):
+                for v1 in fz_first:
+                    for suffix in ('.a', '.x', '.a.b', '.a.x', '.a.b.c', '.a.b.c.d'):
+                        for v2 in (('A', 0, 1), ('F', [])):
+                            add('frozen-below', top, sub, [(base, v1), (base + suffix, v2)])
+                    # overwritten by a plain dict, the place is free again
+                    add('frozen-below', top, sub, [(base, v1), (base + '.a.b', ('A', 0, 1)), (base, ('D', [])), (base + '.a.b', ('A', 0, 1))],
+                        fin_ok=top[2] is None)
     # bounded-exhaustive: every output spec with <= 2 ports x every single emission of the small alphabet + sampled pairs
     n_pairs = 60 if ctx.thorough else 14
     n_specs = 0
@@ -384,9 +422,12 @@ def run_main(ctx):
     failures.sort(key=lambda f: len(str(f['case'])))          # report the smallest failing input first
     return dict(
         evaluations=len(cases), distinct_nontrivial=len(distinct),
-        rule='every output spec with <= 2 ports over the attribute alphabet x (no emission, every single emission of a 35-element alphabet, '
-             'sampled pairs/triples), plus random output specs with <= 6 ports x emission plans that build conforming outputs, perturbed by '
-             'wrong types, unknown / dynamic / through-a-leaf / empty-segment paths, values at namespace paths; non-trivial = >= 2 emissions '
+        rule='every output spec with <= 2 ports over the attribute alphabet x (no emission, every single emission of a 49-element alphabet '
+             '(7 paths x 7 values, two of them immutable mappings), sampled pairs/triples), an enumerated stream of emissions 1..4 segments '
+             'below an emitted immutable mapping (at the top / inside a plain dict / at a declared namespace) incl. overwriting it, plus '
+             'random output specs with <= 6 ports x emission plans that build conforming outputs, perturbed by '
+             'wrong types, unknown / dynamic / through-a-leaf / empty-segment / below-an-emitted-value paths, values at namespace paths, '
+             'a fifth of them with some emitted mappings immutable; non-trivial = >= 2 emissions '
              'with at least one stored; distinct = distinct observation streams',
         samples=[dict(line=lines[i], impl=impl_line(impl[i])) for i in (0, len(cases) // 2, len(cases) - 1)],
         traces_validated=len(cases) if model is not None else 0,
